@@ -48,11 +48,12 @@ KEYFORMS = ("name", "dotted", "tuple")
 ALIAS_TARGETS = {
     "m.al": "m.f", "m.a2": "m.C", "n.a3": "m.al", "n.bad": "m.zzz", "m.self": "m.self", "m.cy": "n.cy", "n.cy": "m.cy",
     "m.f": "m.v",  # an alias can also displace the function at m.f (replacement of an object by an alias)
+    "n.am": "m",  # an alias to the module m itself (modules are replaced too: by regular, stub and namespace modules)
     "n.a4": "m.f",  # a second alias to the same object (every alias of a replaced object must follow, not just the first)
 }
 # (slot path, value kind)
 SET_VALUES = [
-    ("m", "module"), ("m", "stubmodule"), ("n", "module"),
+    ("m", "module"), ("m", "stubmodule"), ("m", "nsmodule"), ("n", "module"),
     ("m.C", "class"), ("m.C.f", "function"), ("m.f", "function"), ("m.f", "attribute"), ("m.v", "attribute"),
 ] + [(p, "alias") for p in ALIAS_TARGETS] + [("m.al", "alias-obj"), ("n.a4", "alias-obj")]
 DEL_PATHS = ["m", "n", "m.C", "m.C.f", "m.f", "m.v", "m.g", "m.al", "m.a2", "n.a3", "n.bad", "m.cy"]  # (n.a4 is never deleted: keeps the alphabet small)
@@ -180,6 +181,9 @@ class World:
         elif kind == "stubmodule":
             o = g.Module(name, filepath=Path(name + ".pyi"))
             mn = MNode(label, "module", suffix=".pyi")
+        elif kind == "nsmodule":
+            o = g.Module(name, filepath=[Path("ns1") / name, Path("ns2") / name])  # a namespace package: several directories, never merged as stubs
+            mn = MNode(label, "module", suffix="ns")
         elif kind == "class":
             o = g.Class(name)
             mn = MNode(label, "class")
@@ -250,7 +254,7 @@ class World:
         if via_set_member and name in container:
             old = container[name]
             if old.kind != "alias":
-                if old.kind == "module" and mn.kind == "module" and old.suffix != mn.suffix:
+                if old.kind == "module" and mn.kind == "module" and old.suffix != mn.suffix and "ns" not in (old.suffix, mn.suffix):
                     # implicit stubs merge: the regular module survives, stub-only members move into it
                     stubs, module = (old, mn) if old.suffix == ".pyi" else (mn, old)
                     self._m_merge(module, stubs)
@@ -325,7 +329,7 @@ class Step:
             recv, mcont, is_coll = self.receiver(rpath)
             if recv is None:
                 return "n/a", "n/a", False, viols
-            if not is_coll and vkind in ("module", "stubmodule"):
+            if not is_coll and vkind in ("module", "stubmodule", "nsmodule"):
                 return "n/a", "n/a", False, viols
             made = w.make_value(path, vkind)
             if made is None:
@@ -701,7 +705,7 @@ def canon(w: World):
                 t = o._target
                 rows.append((p, "alias", l, o.target_path, None if t is None else r(label_of.get(id(t))), None if t is None else _safe_path(t)))
             else:
-                suffix = o._filepath.suffix if isinstance(o, g.Module) and o._filepath is not None else ""
+                suffix = ("ns" if isinstance(o._filepath, list) else o._filepath.suffix) if isinstance(o, g.Module) and o._filepath is not None else ""
                 rows.append((p, o.kind.value + suffix, l, tuple(sorted((k, r(label_of.get(id(a))), a.target_path, _safe_path(a)) for k, a in o.aliases.items()))))
                 rec(p + ".", o.members)
 
